@@ -319,6 +319,40 @@ Proof.
   unfold step_ok, s_step, spec_step. rewrite CH, M. split; [apply om_refl|right; auto].
 Qed.
 
+(* Copy: the state relation is kept whatever the file holds; the copy itself starts with the byte
+   array and is exactly the byte array when the file holds nothing beyond the current offset *)
+Lemma sim_copy s a :
+  R s a -> l_chaos a = false ->
+  let '(s', x) := s_step s Copy in
+  let '(a', y) := spec_step a Copy in
+  out_match_c x y /\ (s_risky s Copy = false -> out_match x y) /\ l_chaos a' = false /\ R s' a'.
+Proof.
+  intros Rsa CH. pose proof Rsa as [W D RO CL M CP MK RC].
+  unfold s_step, spec_step. rewrite CH, CL.
+  destruct (h_copy (s_h s) (s_file s)) as [[h' F'] x] eqn:EC.
+  destruct (h_closed (s_h s)) eqn:HC.
+  { unfold h_copy in EC. rewrite HC in EC.
+    assert (h' = s_h s) by congruence. assert (F' = s_file s) by congruence. assert (x = OErr) by congruence.
+    subst. splits; auto; try (left; apply om_refl); try (intros; apply om_refl). rewrite mks_eta. exact Rsa. }
+  destruct (h_copy_spec _ _ _ _ _ W HC EC) as (X & W' & C' & S' & FO' & U' & RT' & LF & FE).
+  subst x. destruct S'.
+  assert (CMS : capmode h' = capmode (s_h s)) by (apply capmode_same; constructor; auto).
+  pose proof (len_content _ _ W) as LC.
+  splits.
+  - destruct (0 <? l_disc a); [left; left; reflexivity|].
+    right. exists (l_data a), (drop (h_offset (s_h s)) F'). split; auto. rewrite D. f_equal. exact FE.
+  - cbn [s_risky]. rewrite HC. cbn [negb andb]. intros NT. apply N.ltb_ge in NT.
+    destruct (0 <? l_disc a); [left; reflexivity|]. right. f_equal. rewrite D, FE at 1.
+    rewrite drop_ge by (rewrite LF; clear - NT; lia). apply app_nil_r.
+  - lsimp. exact CH.
+  - apply mkR'; lsimp; boring.
+    + congruence.
+    + intros X. rewrite CMS, sc_blen. apply CP. congruence.
+    + intros X CM'. rewrite CMS in CM'. rewrite sc_ro in X. destruct (MK X CM') as [SY FLM].
+      assert (RT : h_retry (s_h s) = true) by (unfold capmode in CM'; apply andb_prop in CM'; tauto).
+      rewrite (RT' RT). split; auto. unfold l_size. rewrite D, LC. congruence.
+Qed.
+
 Lemma sim_step s a o :
   R s a -> l_chaos a = false -> s_risky s o = false -> step_ok s a o.
 Proof.
@@ -335,6 +369,9 @@ Proof.
   - apply sim_close; auto.
   - apply sim_reopen; auto.
   - apply sim_meta; auto.
+  - pose proof (sim_copy s a Rsa CH) as SC. unfold step_ok.
+    destruct (s_step s Copy) as [s' x]. destruct (spec_step a Copy) as [a' y].
+    destruct SC as (_ & OM & CH' & R'). split; auto.
 Qed.
 
 (* ================= theorems ================= *)
@@ -391,22 +428,40 @@ Proof.
   - apply IHForall2.
 Qed.
 
-(* sequences without a reopen are always clean: within one session the refinement is unconditional *)
+(* within one session (no reopen) the refinement needs no premise at all — rewinds below the flushed
+   size, stale tails, preallocation included; only the CONTENT of a Copy made while the file holds
+   bytes beyond the current offset is allowed to carry those bytes behind the byte array *)
 Definition no_reopen (ops : list op) : bool :=
   forallb (fun o => match o with Reopen _ => false | _ => true end) ops.
 
-Lemma no_reopen_clean ops : forall s, no_reopen ops = true -> s_clean s ops = true.
+Lemma om_c x y : out_match x y -> out_match_c x y. Proof. intros; left; auto. Qed.
+
+Lemma single_session_gen : forall ops s a,
+  (l_chaos a = true \/ (l_chaos a = false /\ R s a)) -> no_reopen ops = true ->
+  Forall2 out_match_c (s_run s ops) (spec_run a ops).
 Proof.
-  induction ops as [|o ops IH]; intros s H; cbn [s_clean]; auto.
-  cbn [no_reopen forallb] in H. apply andb_prop in H as [H1 H2].
-  rewrite (IH _ H2), andb_true_r. destruct o; try reflexivity. discriminate.
+  induction ops as [|o ops IH]; intros s a H NR; cbn [s_run spec_run]; [constructor|].
+  cbn [no_reopen forallb] in NR. apply andb_prop in NR as [NR1 NR].
+  destruct H as [CH|[CH Rsa]].
+  - destruct (s_step s o) as [s' x] eqn:ES.
+    assert (SP : spec_step a o = (a, OAny)) by (unfold spec_step; rewrite CH; reflexivity).
+    rewrite SP. constructor; [left; left; reflexivity|]. apply IH; auto.
+  - assert (CASES : o = Copy \/ s_risky s o = false) by (destruct o; auto; discriminate).
+    destruct CASES as [EC|NRK].
+    + subst o. pose proof (sim_copy s a Rsa CH) as SC.
+      destruct (s_step s Copy) as [s' x]. destruct (spec_step a Copy) as [a' y].
+      destruct SC as (OM & _ & CH' & R'). constructor; auto.
+    + pose proof (sim_step s a o Rsa CH NRK) as ST. unfold step_ok in ST.
+      destruct (s_step s o) as [s' x] eqn:ES. destruct (spec_step a o) as [a' y] eqn:EA.
+      destruct ST as [OM NX]. constructor; [apply om_c; auto|]. apply IH; auto.
 Qed.
 
 Theorem single_refines_log_session : forall p meta o ops,
   opts_valid o = true -> no_reopen ops = true ->
-  Forall2 out_match (s_run (s_create p meta o) ops) (spec_run (log_init (zeros p) meta o) ops).
+  Forall2 out_match_c (s_run (s_create p meta o) ops) (spec_run (log_init (zeros p) meta o) ops).
 Proof.
-  intros p meta o ops OV NR. apply single_refines_log_partial; auto. apply no_reopen_clean; auto.
+  intros p meta o ops OV NR. apply single_session_gen; auto.
+  right. split; [reflexivity|]. apply R_init; auto.
 Qed.
 
 (* ... but not every run is clean: rewind below the flushed size, close, reopen: the file was never
@@ -461,6 +516,10 @@ Proof.
     destruct (h_close_spec _ _ _ _ _ W HC E0) as (_ & W' & _). exact W'.
   - destruct (h_closed (s_h s)); [|exact W].
     destruct (opts_valid o) eqn:OV; [|exact W]. cbn [fst s_h s_file]. apply h_open_wf; auto.
+  - destruct (h_copy (s_h s) (s_file s)) as [[h' F'] x] eqn:E. cbn [fst s_h s_file].
+    pose proof E as E0. unfold h_copy in E.
+    destruct (h_closed (s_h s)) eqn:HC; [assert (h' = s_h s) by congruence; assert (F' = s_file s) by congruence; subst; auto|].
+    destruct (h_copy_spec _ _ _ _ _ W HC E0) as (_ & W' & _). exact W'.
 Qed.
 
 Lemma s_state_wf ops : forall s, hwf (s_h s) (s_file s) -> hwf (s_h (s_state s ops)) (s_file (s_state s ops)).
